@@ -121,6 +121,30 @@ Lemma next_set_r h l r : h_next (set_r h l r) = h_next h. Proof. reflexivity. Qe
 Lemma next_set_c h l c : h_next (set_c h l c) = h_next h. Proof. reflexivity. Qed.
 Lemma next_bump h : h_next (bump h) = S (h_next h). Proof. reflexivity. Qed.
 
+Lemma lookup_none {V} (s : list (loc * V)) n l :
+  Forall (fun kv => fst kv < n) s -> n <= l -> lookup l s = None.
+Proof.
+  induction s as [|[k v] s IH]; intros F Hl; [reflexivity|].
+  inversion F; subst. simpl in *. replace (Nat.eqb k l) with false by (symmetry; apply Nat.eqb_neq; lia).
+  apply IH; auto.
+Qed.
+
+(* a checkable sufficient condition for [hwf] (used for concrete heaps) *)
+Definition hwfb (h : heap) : bool :=
+  forallb (fun kv => fst kv <? h_next h) (h_atoms h) && forallb (fun kv => fst kv <? h_next h) (h_res h) &&
+  forallb (fun kv => fst kv <? h_next h) (h_chains h).
+
+Lemma hwfb_sound h : hwfb h = true ->
+  forall l, h_next h <= l -> get_a h l = None /\ get_r h l = None /\ get_c h l = None.
+Proof.
+  unfold hwfb. intros H l Hl. apply andb_prop in H. destruct H as [H H3]. apply andb_prop in H. destruct H as [H1 H2].
+  assert (F : forall V (s : list (loc * V)), forallb (fun kv => fst kv <? h_next h) s = true ->
+                                            Forall (fun kv => fst kv < h_next h) s).
+  { intros V s Hs. apply Forall_forall. intros x Hx. rewrite forallb_forall in Hs. apply Nat.ltb_lt. apply Hs. exact Hx. }
+  unfold get_a, get_r, get_c.
+  repeat split; eapply lookup_none; eauto.
+Qed.
+
 #[global] Opaque get_a get_r get_c set_a set_r set_c bump.
 
 Ltac heap_simpl :=
@@ -131,6 +155,9 @@ Ltac heap_simpl :=
 (* every object lives below the allocation pointer *)
 Definition hwf (h : heap) : Prop :=
   forall l, h_next h <= l -> get_a h l = None /\ get_r h l = None /\ get_c h l = None.
+
+Lemma hwfb_hwf h : hwfb h = true -> hwf h.
+Proof. exact (hwfb_sound h). Qed.
 
 Lemma hwf_empty : hwf empty_heap.
 Proof. intros l _. repeat split; reflexivity. Qed.
@@ -155,3 +182,7 @@ Lemma eqb_false_gt a b : a < b -> Nat.eqb a b = false.
 Proof. intros; apply Nat.eqb_neq; lia. Qed.
 Lemma eqb_false_ne a b : a <> b -> Nat.eqb a b = false.
 Proof. intros; apply Nat.eqb_neq; auto. Qed.
+
+(* residue back pointers of t's atoms stay inside t *)
+Definition back_ok (h : heap) (t : topo) : Prop :=
+  forall l a, In l (t_atoms t) -> get_a h l = Some a -> In (a_res a) (t_residues t).
